@@ -21,6 +21,7 @@ def main():
     ap.add_argument("--replay")
     ap.add_argument("--only", help="restrict to a sub-check (debugging)")
     a = ap.parse_args()
+    os.environ["VERIF_TIER"] = a.tier
     seed = int(os.environ.get("VERIF_SEED", "0") or 0)
     pid = a.prop.upper()
     mod = importlib.import_module(pid.lower())
